@@ -105,6 +105,8 @@ def run(ctx, log):
     obs4 = progcheck.pipeline(ctx, srcs4, log, budget=30000, label="programs-ending-in-a-statement", with_value=wv)
     for s4 in srcs4:
         ctx.seen(s4)
+    # what the user's command-line program prints for the same texts (built without the observation hooks)
+    progcheck.run_production(ctx, log, DIRECTED + rng.sample(srcs + srcs3 + srcs4, 120 if ctx.quick else 1500))
     ncomp = 0
     for s, c, o in zip(progs, obs["compile"], obs["eval"]):
         ok = c.startswith("OK")
